@@ -1024,6 +1024,12 @@ func (s *session) run() {
 			}
 
 		case evt := <-s.sessionEvent:
+			// An expiry that was waiting to be handed over while the session was busy, and whose timer
+			// has been re-armed in the meantime, says nothing about the period now running.
+			if (evt == internal.PeerTimeout && s.peerTimer.Stale()) ||
+				(evt == internal.NeedHeartbeat && s.stateTimer.Stale()) {
+				continue
+			}
 			s.Timeout(s, evt)
 
 		case now := <-ticker.C:
